@@ -373,6 +373,16 @@ def gen(rng, tier):
         yield Case("detboot", [esc(fasta(rows)), rng.choice(["k2p", "jc", "pdist", "f81", "tn93", "f84", "rawdist"]) + rng.choice(["", "", " -r"]),
                                rng.randint(1, 5), rng.choice(["1/1", "1/2", "3/4", "1/3"]), rng.randint(0, 2 ** 31 - 1), rng.choice(THREADS)],
                    True, "distboot")
+    # --- compressed output files written a second apart (a time stamp in a gzip / xz / tar header has 1 s resolution) ---
+    rows = nt_alignment(rng, 3, 6, 8, 40, plain=True)
+    sd = str(rng.randint(0, 2 ** 31 - 1))
+    slow = [["reformat", "phylip", "-o", "out.gz"], ["shuffle", "sites", "-r", "0.5", "--seed", sd, "-o", "out.gz"],
+            ["compute", "distance", "-m", "jc", "-o", "d.gz"], ["reformat", "nexus", "-o", "out.xz"],
+            ["build", "seqboot", "-n", "2", "--gz", "-o", "boot", "--seed", sd], ["build", "seqboot", "-n", "2", "--tar", "--gz", "-o", "boot", "--seed", sd]]
+    for argv in (slow if tier != "quick" else rng.sample(slow[:3], 2) + rng.sample(slow[3:], 1)):
+        c = det(fasta(rows), argv, rng, "slow-" + "-".join(argv[:2]) + "-" + argv[-1 if "-o" == argv[-2] else argv.index("-o") + 1], nruns=2)
+        c.op = "detslow"
+        yield c
     # --- exact bytes of seeded commands -----------------------------------------------------------------
     for c in gen_seeded(rng, tier):
         yield c
@@ -382,7 +392,7 @@ def recheck(binpath, cases):
     """non-trivial is decided on what the command did: it succeeded and wrote at least 20 bytes, or it is one of the
     error-path cases with several invalid arguments"""
     for c in cases:
-        if c.op == "det":
+        if c.op in ("det", "detslow"):
             im = c.impl or ""
             ok = " rc=0 " in im
             nb = 0
